@@ -253,6 +253,7 @@ class Run:
         self.known_hits = []
         self.notes = []
         self.nreplay = 0
+        self.seen = set()
 
     def add_mc(self, res, constants=None):
         self.cov["states"] += res["distinct"]
@@ -273,6 +274,10 @@ class Run:
 
     def violation(self, fail, replay_obj):
         """Record one judged failure of this property (or a known finding)."""
+        key = json.dumps([fail.get("w"), fail.get("d")], sort_keys=True, ensure_ascii=False)
+        if key in self.seen:
+            return
+        self.seen.add(key)
         k = match_known(self.prop, fail, load_known())
         if k is not None:
             if k["line"] not in self.known_hits:
